@@ -306,8 +306,6 @@ class Impl:
         if op == "referring":
             ent, h = self.get(line[1], ("section", "source"))
             what = line[2]
-            if ent["kind"] == "source" and what in ("blocks", "sources"):
-                raise ValueError("referring kind")
             return self._keys(getattr(h, "referring_" + what))
         raise ValueError("unknown op")
 
@@ -562,7 +560,7 @@ def correspondence(ctx):
     for h in corpus:
         histories.append(h)
         impl_outs.append(run_history(path, h))
-    n_hist = ctx.budget(70, 900)
+    n_hist = ctx.budget(160, 1500)
     for i in range(n_hist):
         nb = ctx.rng.choice([8, 14, 22, 30])
         nm = ctx.rng.choice([15, 30, 50])
@@ -968,7 +966,7 @@ def oracle(ctx, broken, hints):
     for h in hints[:20]:
         n += oracle_history(ctx, path, h, failures)
         hist += 1
-    budget = 400 if broken and not ctx.quick() else (60 if broken else ctx.budget(12, 150))
+    budget = 400 if broken and not ctx.quick() else (80 if broken else ctx.budget(24, 300))
     for i in range(budget):
         if len(failures) >= 5:
             break
